@@ -17,7 +17,7 @@ PROP = "C09"
 PROP_FILE = "GateryModel/Properties/C09.lean"
 PROP_MODULE = "GateryModel.Properties.C09"
 STREAMS = {
-    "quick": [[300, 150, "ops"], [40, 400, "ops"], [70, 20, "design"]],
+    "quick": [[1200, 150, "ops"], [120, 400, "ops"], [200, 20, "design"], [20, 45, "design"]],
     "thorough": [[4000, 150, "ops"], [400, 600, "ops"], [900, 20, "design"], [150, 45, "design"]],
 }
 ASAN_STREAMS = [[600, 150, "ops"], [60, 600, "ops"], [250, 20, "design"], [40, 45, "design"]]
